@@ -35,6 +35,7 @@ func c08Programs() map[string]e3Spec {
 			"Test1":        {Calls: []e3Call{snap("default")}},
 			"FuzzA/seed#0": {Calls: []e3Call{snap("default")}},
 			"TestB":        {Calls: []e3Call{snap("default")}, Subs: []e3Sub{{Name: "x", Calls: []e3Call{snap("default")}}}},
+			"TestC":        {Calls: []e3Call{snap("default")}},
 		},
 		"P2-custom-files": {
 			"TestA":   {Calls: []e3Call{snap("filename")}, Subs: []e3Sub{{Name: "x", Calls: []e3Call{snap("filename")}}}},
@@ -61,6 +62,7 @@ func c08Programs() map[string]e3Spec {
 			"TestB":   {Calls: []e3Call{snap("default"), {API: "ssnap", Cfg: "default"}}},
 			"TestA":   {Calls: []e3Call{snap("default")}},
 			"TestSub": {Calls: []e3Call{{API: "ssnap", Cfg: "filename"}}},
+			"TestC":   {Calls: []e3Call{snap("default"), snap("default")}},
 		},
 	}
 }
@@ -197,12 +199,45 @@ func c08SkipsExist(prog e3Spec, ss map[string]string) bool {
 	for _, d := range c08Declared(prog) {
 		decl[d] = true
 	}
-	for n := range ss {
+	for n, how := range ss {
 		if !decl[n] {
+			return false
+		}
+		if strings.Contains(how, "@") && !c08Uniform(prog, n) {
 			return false
 		}
 	}
 	return true
+}
+
+// c08Uniform: all calls of the named test use one API and one configuration (then its k-th call addresses slot k).
+func c08Uniform(prog e3Spec, name string) bool {
+	var calls []e3Call
+	parts := strings.Split(name, "/")
+	t, ok := prog[parts[0]]
+	if !ok {
+		return false
+	}
+	calls = t.Calls
+	subs := t.Subs
+	for _, p := range parts[1:] {
+		found := false
+		for _, s := range subs {
+			if s.Name == p {
+				calls, subs, found = s.Calls, s.Subs, true
+				break
+			}
+		}
+		if !found {
+			return false
+		}
+	}
+	for _, c := range calls {
+		if c != calls[0] {
+			return false
+		}
+	}
+	return len(calls) > 0
 }
 
 func runC08(tier, scratch, replay string, nworkers int) *merged {
@@ -243,6 +278,11 @@ func runC08Mode(tier, scratch, replay string, nworkers int, mode string) *merged
 			for j := i + 1; j < len(c08SkipCandidates); j++ {
 				skipSets = append(skipSets, map[string]string{a: hows[i%3], c08SkipCandidates[j]: hows[j%3]})
 			}
+		}
+		// a test that makes its first call(s) and THEN skips itself: the slots it did not reach are protected
+		for _, late := range []map[string]string{{"TestA": "skip@1"}, {"TestSub": "skipf@1"}, {"TestA/v1/list": "skipnow@1"}, {"TestC": "skip@1"}, {"TestA": "skipnow@2"},
+			{"TestA": "skipf@1", "TestB": "skip"}, {"TestSub": "skip@1", "TestA/x": "skipnow"}} {
+			skipSets = append(skipSets, late)
 		}
 		patterns := c08Patterns
 		if tier == "thorough" {
@@ -447,10 +487,10 @@ func runC08Mode(tier, scratch, replay string, nworkers int, mode string) *merged
 			case cell.Run != "" && !itemIsFile && !bySkip(name) && runRe != nil && runRe.MatchString(id):
 				// K3: the pattern, taken as ONE unanchored regexp, matches the whole id `name - n` although Go did not select the test
 				return "K3-run-pattern-regexp-vs-go-matching"
-			case cell.Run != "" && itemIsFile && !bySkip(name) && (file == "a_test.snap" || file == "b_test.snap") && c08SourceHasMatch(file, runRe):
+			case cell.Run != "" && itemIsFile && !bySkip(name) && c08DefaultFile(file) && c08SourceHasMatch(file, runRe):
 				// K7: some function of the source file matches the pattern
 				return "K7-file-level-rule-function-in-source-matches"
-			case cell.Run != "" && itemIsFile && !bySkip(name) && file != "a_test.snap" && file != "b_test.snap":
+			case cell.Run != "" && itemIsFile && !bySkip(name) && !c08DefaultFile(file):
 				// K4: no source file is named after this snapshot file
 				return "K4-file-skip-derives-source-name-from-snapshot-name"
 			}
@@ -541,6 +581,52 @@ func runC08Mode(tier, scratch, replay string, nworkers int, mode string) *merged
 				}
 			}
 		}
+		// a test that skipped itself after k calls: the slots beyond k are protected, the ones it addressed are kept as well
+		for name, how := range cell.Skips {
+			if !strings.Contains(how, "@") || !skipped[name] {
+				continue
+			}
+			reached := 0
+			for _, l := range res.trace {
+				f := strings.Fields(l)
+				if len(f) == 5 && f[0] == "call" && f[1] == name {
+					var i int
+					fmt.Sscan(f[4], &i)
+					if i > reached {
+						reached = i
+					}
+				}
+			}
+			for _, fe := range r.owned.entries[name] {
+				parts := strings.SplitN(fe, "\x00", 2)
+				file, id := parts[0], parts[1]
+				var k int
+				fmt.Sscan(id[strings.LastIndex(id, " - ")+3:], &k)
+				if k <= reached {
+					continue
+				}
+				es, _ := e3Parse(after[file])
+				found := false
+				for _, e := range es {
+					if e.ID == id {
+						found = true
+					}
+				}
+				if !found {
+					m.viol(class(name, false, file, id), fmt.Sprintf("test %s made %d call(s) and then skipped itself through snaps.%s; its entry [%s] was removed from %s (summary tests %v)", name, reached, how, id, file, sum.obsTests), cell)
+				} else if listedTest[id] {
+					m.viol(class(name, false, file, id), fmt.Sprintf("test %s made %d call(s) and then skipped itself through snaps.%s; its entry [%s] is listed obsolete", name, reached, how, id), cell)
+				}
+			}
+			for i, file := range r.owned.files[name] {
+				if i+1 <= reached {
+					continue
+				}
+				if after[file] != r.tree[file] || listedFile[file] {
+					m.viol(class(name, true, file, ""), fmt.Sprintf("test %s made %d call(s) and then skipped itself through snaps.%s; its standalone file %s was removed/altered/listed (listed=%v)", name, reached, how, file, listedFile[file]), cell)
+				}
+			}
+		}
 		// a skip protects exactly the test and its descendants, not name-prefix siblings: with no -run the stale items must be reported
 		if cell.Run == "" {
 			if _, ok := r.tree["a_test.snap"]; ok && ranOrProtectedUsesFile(r.owned, "a_test.snap", ranCalls) {
@@ -558,6 +644,12 @@ func runC08Mode(tier, scratch, replay string, nworkers int, mode string) *merged
 		}
 	})
 	return m
+}
+
+// c08DefaultFile: snapshot files named after a source file of the module.
+func c08DefaultFile(file string) bool {
+	_, ok := e3Files[strings.TrimSuffix(file, ".snap")+".go"]
+	return ok
 }
 
 // ranOrProtectedUsesFile: the file was addressed by some call that really ran
